@@ -38,7 +38,9 @@ Judge(e) ==
          Verdict(<< <<ResAgrees(e.res, r, e.dec), "dec">>,
                     <<~IsPanic(e.res), "panic">>,
                     <<r.ok => e.leaves = lv, "leaves">>,
-                    <<r.ok => e.transient = 0, "leaves">> >>,
+                    <<r.ok => e.transient = 0, "leaves">>,
+                    \* a sequence's size hint (what collection visitors pre-allocate from) never exceeds the bytes available
+                    <<Has(e, "hints") => \A i \in 1..Len(e.hints) : e.hints[i][1] = 0 => e.hints[i][2] <= e.avail, "hint">> >>,
                  [res |-> DecOut(r), leaves |-> lv])
     [] e.op = "decb" ->
          LET exp == [b \in 1..256 |-> Compact(Dec(e.shape, Append(e.prefix, b - 1), 0))] IN
